@@ -594,7 +594,7 @@ def run(tier: str, seed: int, props: list[str] | None = None, n_cases: int | Non
     if batch:
         run_batch(batch, res, counters, props or LOOP_PROPS)
     dfs_report = {}
-    if tier == "thorough" and n_cases is None:
+    if (tier == "thorough" or scale > 1.0) and n_cases is None:
         dfs_report = run_dfs(res, counters, max_runs_per_cfg=60000)
     return {
         "family": "loop",
